@@ -1046,9 +1046,16 @@ impl<'a> CompactionIterator<'a> {
 
 		// Check if latest version is DELETE at bottom level
 		// If so, we can completely remove this key from the database
+		// ... unless an active snapshot is older than the delete: it still reads the
+		// versions below the tombstone, so they (and the tombstone masking them for
+		// newer readers) must stay until that snapshot is released.
 		let latest_is_delete_at_bottom = self.is_bottom_level
 			&& !self.accumulated_versions.is_empty()
-			&& self.accumulated_versions[0].0.is_hard_delete_marker();
+			&& self.accumulated_versions[0].0.is_hard_delete_marker()
+			&& self
+				.snapshots
+				.first()
+				.map_or(true, |&oldest| oldest >= self.accumulated_versions[0].0.seq_num());
 
 		// Check if any version is REPLACE
 		// REPLACE semantics: delete all older versions regardless of retention
@@ -1126,8 +1133,9 @@ impl<'a> CompactionIterator<'a> {
 				// Latest PUT: never stale (will be output)
 				false
 			} else if is_latest && is_hard_delete && self.is_bottom_level {
-				// Latest DELETE at bottom: stale (won't be output)
-				true
+				// Latest DELETE at bottom that cannot drop the whole key yet (an older
+				// snapshot needs earlier versions): keep the tombstone
+				false
 			} else if is_latest && is_hard_delete && !self.is_bottom_level {
 				// Latest DELETE at non-bottom: not stale (tombstone preserved)
 				false
